@@ -42,9 +42,7 @@ theorem closed_all (hw : WF g) (hi : Inv cfg g f s) (hc : s.closed = true) :
         have hex := (ih (g.trig a)[i] ht (by omega)).1
         have hne : s.phase (g.trig a)[i] ≠ .idle := by
           intro h; rw [h] at hex; cases hex
-        obtain ⟨j, hj, hp, _⟩ := deps_passed hw hi ht hne a hat
-        have := nodup_getElem?_inj (hw.trig_nodup a ha) hk hj
-        subst this; exact hp
+        exact edges_passed hi ht hne a i ha hk
       refine ⟨?_, hpass⟩
       have hne := hw.has_trig a (by omega)
       have hpos : 0 < (g.trig a).length := List.length_pos_iff.mpr hne
@@ -67,16 +65,14 @@ theorem no_idle_of_all_idle_or_done (hw : WF g) (hi : Inv cfg g f s)
     · exfalso
       have hpos := (hi.idleIff a ha).mp hid
       rw [hi.pend a ha] at hpos
-      obtain ⟨d, hd, hnone⟩ := List.countP_pos_iff.mp hpos
-      have hlt := hw.deps_lt a ha d hd
-      have hdn : d ≤ g.n := by omega
+      obtain ⟨d, i, hdn, hdi, hnp⟩ := openEdges_pos hpos
+      have hmem : a ∈ g.trig d := List.mem_iff_getElem?.mpr ⟨i, hdi⟩
+      obtain ⟨_, hda⟩ := hw.trig_sound d hdn a hmem
+      have hlt := hw.deps_lt a ha d hda
       have hdd := ih d hlt hdn
-      obtain ⟨i, hi'⟩ := List.mem_iff_getElem?.mp (hw.trig_complete a ha d hd)
-      have := hi.decIff d hdn i a hi'
-      rw [hdd] at this
-      cases h : s.decAt d a with
-      | none => rw [h] at this; cases this
-      | some k => rw [h] at hnone; cases hnone
+      simp only [passedP] at hnp
+      rw [hdd] at hnp
+      cases hnp
     · exact hd
 
 /-! ### progress -/
